@@ -300,7 +300,7 @@ class C01(Machine):
         shutil.rmtree(tdir, ignore_errors=True)
         with cwd(tdir):
             if spec.derived_A and m.get("A_assigned"):
-                if rec["name"] not in net_query_names():
+                if not spec.projectable(rec["name"]):
                     return None, "class-level query on an assigned adjacency"
                 w = m.get("w", "default")
                 if w == "default":
